@@ -33,6 +33,7 @@ type builtTx struct {
 	// Constructed = pool[SignKey] signed exactly the content built here; ContentChanged = a signed field
 	// (chain id, entropy, fee, message, memo) differs from what was signed; SigChanged = the signature bytes
 	// were altered after signing
+	signBytes      []byte
 	Constructed    bool
 	ContentChanged bool
 	SigChanged     bool
@@ -302,6 +303,7 @@ func (ch *chain) buildTx(tx *hTx) *builtTx {
 		pub = ch.pool[signKey].Pub
 	}
 	std := authtypes.NewStdTx(msg, feeCoins, authtypes.StdSignature{PublicKey: pub, Signature: sig}, tx.Memo, tx.Entropy)
+	bt.signBytes = signBytes
 	ch.mutate(tx, &std, bt, mk)
 	bt.Constructed = true
 	bt.ContentChanged = chainID != simChainID || std.Entropy != tx.Entropy || std.Memo != tx.Memo || !coinsSame(std.Fee, feeCoins) || !reflect.DeepEqual(std.Msg, msg)
@@ -376,6 +378,23 @@ func (ch *chain) mutate(tx *hTx, std *authtypes.StdTx, bt *builtTx, mk func(sdk.
 		}
 	case "sigext":
 		std.Signature.Signature = append(append([]byte{}, std.Signature.Signature...), 0x00)
+	case "sigpartial", "sigshift":
+		// a multi-signature that carries fewer signatures than the key has members: the first m (sigpartial) or the
+		// last m (sigshift), each genuine - what a half-signed transaction looks like before the other holders sign
+		parts := ch.pool[bt.SignKey].Parts
+		if len(parts) < 2 {
+			return
+		}
+		m := 1 + int(uint64(tx.Entropy)%uint64(len(parts)-1))
+		use := parts[:m]
+		if tx.Mut == "sigshift" {
+			use = parts[len(parts)-m:]
+		}
+		ms := crypto.MultiSignature{}
+		for _, p := range use {
+			ms.Sigs = append(ms.Sigs, simSign(ch.pool, p, bt.signBytes))
+		}
+		std.Signature.Signature = ms.Marshal()
 	case "swapkey": // claim another key in the signature
 		other := mod(bt.SignKey+1, 8)
 		std.Signature.PublicKey = ch.pool[other].Pub
